@@ -2,7 +2,8 @@ package wire
 
 // Registry lists the harness entry points of this package for native replay.
 var Registry = map[string]func([]int64){
-	"HarnessDecode":  func(a []int64) { HarnessDecode(int(a[0]), int(a[1])) },
-	"HarnessVarInt":  func([]int64) { HarnessVarInt() },
-	"HarnessFraming": func(a []int64) { HarnessFraming(int(a[0])) },
+	"HarnessDecode":       func(a []int64) { HarnessDecode(int(a[0]), int(a[1])) },
+	"HarnessVarInt":       func([]int64) { HarnessVarInt() },
+	"HarnessFraming":      func(a []int64) { HarnessFraming(int(a[0])) },
+	"HarnessCommandField": func([]int64) { HarnessCommandField() },
 }
